@@ -13,7 +13,7 @@ from ..descriptors import arm_descriptors, ArmWalker, Descriptor, self_names_of,
 from ..effects import external_effects
 from ..py_frontend import dotted, call_name, calls_under, walk, is_name, src, pmatch
 from .common import (short, inst, live_funcs, calls_in, callee_func, member_path, enclosing_map,
-                     ancestors, kind_switches, local_inits, strip_casts, ALL_KINDS)
+                     ancestors, kind_switches, local_inits, strip_casts, ALL_KINDS, if_outcome)
 
 CONTAINER_KINDS = ['Tuple', 'List', 'Dict', 'NamedTuple', 'OrderedDict', 'DefaultDict', 'Deque',
                    'StructSequence', 'Custom']
@@ -882,7 +882,7 @@ def n1(ctx):
             for c in pre:
                 ifs = [a for a in ancestors(c, parent) if a.kind == 'IfStmt']
                 if ifs and 'node_entries' in ifs[-1].kids[0].text(4) and \
-                        any(x is c for x in ifs[-1].kids[1].walk()):
+                        if_outcome(ifs[-1], c)[1] is True:
                     ok = True
             ctx.check('%s/explicit-entries-first' % short(f).split('::')[-1], ok,
                       '%s: node_entries[i] is used whenever the node has explicit entries' % inst(f),
